@@ -316,9 +316,18 @@ class XMLReader(object):
         :returns: a parsed odml.Document.
         """
         try:
-            root = ET.XML(string, self.parser)
+            if isinstance(string, str):
+                # lxml refuses str input that carries an encoding declaration. The
+                # declaration of an already decoded text is void, so parse the UTF-8
+                # bytes of the text with the encoding fixed to UTF-8.
+                parser = ET.XMLParser(remove_comments=True, encoding="utf-8")
+                root = ET.XML(string.encode("utf-8"), parser)
+            else:
+                root = ET.XML(string, self.parser)
         except ET.XMLSyntaxError as exc:
             raise ParserException(exc.msg)
+        except UnicodeEncodeError as exc:
+            raise ParserException(str(exc))
 
         self._handle_version(root)
         return self.parse_element(root)
